@@ -13,11 +13,15 @@ MODS = {
                 inter={"bonds": [F.I(["BB", "SC1"], ["1", "0.29", "999"], {"comment": "cap"})]}),
 }
 MOD_LINK = dict(resname=["ALA", "GLY", "B"], inter={"bonds": [F.I(["BB", "+BB"], ["1", "0.35", "1250"])]})
+# the same backbone link, but it also renames the side atom of the residue that makes the bond: afterwards a modification that
+# names SC1 names nothing in that residue any more (names are those the molecule has when the modification is applied)
+MOD_LINK_RENAME = dict(resname=["ALA", "GLY", "B"], atoms={"SC1": {"replace": {"atomname": "SCX"}}},
+                       inter={"bonds": [F.I(["BB", "+BB"], ["1", "0.35", "1250"])]})
 PROTEIN = {"ALA", "GLY"}
 
 
-def mod_spec(with_mods=True):
-    return dict(blocks=MOD_BLOCKS, links=[MOD_LINK], mods=MODS if with_mods else {})
+def mod_spec(with_mods=True, rename=False):
+    return dict(blocks=MOD_BLOCKS, links=[MOD_LINK_RENAME if rename else MOD_LINK], mods=MODS if with_mods else {})
 
 
 def mod_cases(tier):
@@ -26,15 +30,19 @@ def mod_cases(tier):
             yield dict(kind="mods", names=list(names), tier=tier)
     yield dict(kind="mods", names=["ALA", "B", "ALA"], tier=tier)
     yield dict(kind="mods", names=["B", "ALA", "GLY"], tier=tier)
+    for names in (["ALA", "ALA"], ["ALA", "ALA", "ALA"], ["ALA", "GLY", "ALA"], ["GLY", "ALA", "ALA"]):
+        yield dict(kind="mods", names=names, tier=tier, rename=True)
 
 
-def mod_selections(names, start):
+def mod_selections(names, start, rename=False):
     """[] (default termini) + every single and ordered pair of (residue, modification) whose named interaction atoms exist"""
     singles = []
     for i, rn in enumerate(names):
         for mname, mod in MODS.items():
             need = {a for lst in mod["inter"].values() for at, _, _ in lst for a in at}
             have = {a[0] for a in MOD_BLOCKS[rn]["atoms"]}
+            if rename and rn == "ALA" and i < len(names) - 1:
+                have = (have - {"SC1"}) | {"SCX"}      # the link renamed the side atom of every ALA that has a next residue
             if need <= have:
                 singles.append((i, rn, mname))
     out = [[]]
@@ -72,16 +80,16 @@ def check_mods(case, stats):
     viols, evals, keys = [], 0, []
     names = case["names"]
     n = len(names)
-    spec = mod_spec()
+    spec = mod_spec(rename=bool(case.get("rename")))
     ff_text = F.render_ff(spec)
     for start in (1, 5):
         for keymode in ("resid-1", "shifted"):
             rg = dict(n=n, edges=[[i, i + 1] for i in range(n - 1)], resids=[start + i for i in range(n)], resnames=names)
-            for sel in mod_selections(names, start):
+            for sel in mod_selections(names, start, rename=bool(case.get("rename"))):
                 if case["tier"] == "quick" and len(sel) == 2 and (start == 5) != (keymode == "shifted"):
                     continue
                 evals += 1
-                case1 = dict(kind="mods1", names=names, start=start, keymode=keymode, sel=[list(s) for s in sel])
+                case1 = dict(kind="mods1", names=names, start=start, keymode=keymode, sel=[list(s) for s in sel], rename=bool(case.get("rename")))
                 mods_arg = [[f"{rn}{rg['resids'][i]}", mname] for i, rn, mname in sel]
                 key_perm = [start - 1 + i for i in range(n)] if keymode == "resid-1" else [10 + 2 * i for i in range(n)]
                 try:
@@ -94,7 +102,7 @@ def check_mods(case, stats):
                     viols.append(crash_violation(exc, case1, assertion="modifications-accepted"))
                     continue
                 exp, atoms, inter, extra, named = ref_mods(spec, rg, sel)
-                info = f" | residues {names} start {start} keys {keymode} mods {mods_arg or 'default termini'}"
+                info = f" | residues {names} start {start} keys {keymode} mods {mods_arg or 'default termini'}" + (" (link renames SC1)" if case.get("rename") else "")
                 for i, (a, b, e) in enumerate(zip(before["atoms"], after["atoms"], atoms)):
                     for k in ("atomname", "atype", "resname", "resid", "charge_group", "charge", "mass"):
                         if b[k] != e[k]:
@@ -111,7 +119,7 @@ def check_mods(case, stats):
                     viols.append(dict(assertion="modification-adds-only-its-interactions", tags=[],
                                       message=f"interactions after {[g for g in got if g not in was]} expected additions {extra}" + info, case=case1, detail={}))
                 if sel or n >= 1:
-                    keys.append(json.dumps([names, start, keymode, sel]))
+                    keys.append(json.dumps([names, start, keymode, sel, bool(case.get("rename"))]))
     return viols, evals, keys
 
 
